@@ -1158,6 +1158,13 @@ func ruleNodeCompare(w *World, r *Report, nt *nodeTypes) {
 			if isNilConst(bo.X) || isNilConst(bo.Y) {
 				return
 			}
+			// a test of one node's value against a constant (n == 0, s == "") compares no two nodes
+			if _, isK := bo.X.(*ssa.Const); isK {
+				return
+			}
+			if _, isK := bo.Y.(*ssa.Const); isK {
+				return
+			}
 			if t, isOwn := own[fn]; isOwn && types.Identical(bo.X.Type(), t) && types.Identical(bo.Y.Type(), t) {
 				return
 			}
@@ -1252,4 +1259,135 @@ func ruleHashInjective(w *World, r *Report, nt *nodeTypes) {
 
 func (w *World) sizeOf(b *types.Basic) int64 {
 	return types.SizesFor("gc", "amd64").Sizeof(b)
+}
+
+// ruleHashZero — R-HASHZERO (C04 "numbers within eps … reflexive, symmetric",
+// C05 "Diff empty iff Equals", C06 "len minus LCS"; v1: C17 "equality is
+// coherent"). Equals on numbers is arithmetic (|a−b| ≤ eps), the digest that
+// sets, multisets and the list LCS compare is taken from the IEEE bit pattern.
+// The two disagree on exactly one pair of finite values: 0 and −0 are equal
+// and have different bits (NaN is rejected when a node is built). A number
+// digest made from the bits must therefore see a value in which −0 has been
+// folded into 0 (`if n == 0 { n = 0 }`, or `n + 0`).
+func ruleHashZero(w *World, r *Report, nt *nodeTypes) {
+	rule := "R-HASHZERO"
+	if nt.tag != "v2" {
+		rule += "(" + nt.tag + ")"
+	}
+	fn := nt.method("jsonNumber", "hashCode")
+	if fn == nil || fn.Blocks == nil {
+		r.Ok(rule, nt.tag+".(jsonNumber).hashCode", "-", "no number digest found: this rule makes no claim (not decided)")
+		return
+	}
+	r.Fn(fnName(fn))
+	recv := fn.Params[0]
+	isFloat := func(t types.Type) bool {
+		b, ok := t.Underlying().(*types.Basic)
+		return ok && b.Info()&types.IsFloat != 0
+	}
+	var folded func(v ssa.Value, depth int) bool
+	folded = func(v ssa.Value, depth int) bool {
+		if depth > 6 {
+			return false
+		}
+		switch x := v.(type) {
+		case *ssa.MakeInterface:
+			return folded(x.X, depth+1)
+		case *ssa.ChangeType:
+			return folded(x.X, depth+1)
+		case *ssa.Convert:
+			if isFloat(x.X.Type()) {
+				return folded(x.X, depth+1)
+			}
+			return true // no longer the float's bits
+		case *ssa.BinOp:
+			if x.Op == token.ADD {
+				if c, ok := x.Y.(*ssa.Const); ok && c.Value != nil && c.Float64() == 0 {
+					return true
+				}
+				if c, ok := x.X.(*ssa.Const); ok && c.Value != nil && c.Float64() == 0 {
+					return true
+				}
+			}
+			return false
+		case *ssa.Phi:
+			// every edge is either the constant 0 or the receiver on the edge on which it is known to be non-zero
+			zeroEdge, other := false, true
+			for i, e := range x.Edges {
+				if c, ok := e.(*ssa.Const); ok && c.Value != nil && c.Float64() == 0 {
+					zeroEdge = true
+					continue
+				}
+				if strip(e) != ssa.Value(recv) {
+					other = false
+					continue
+				}
+				// the predecessor edge must be the false side of `recv == 0` (or true side of !=)
+				pred := x.Block().Preds[i]
+				okEdge := false
+				for _, b := range fn.Blocks {
+					cond, tE, fE, okb := branchEdges(b)
+					if !okb {
+						continue
+					}
+					bo, okc := cond.(*ssa.BinOp)
+					if !okc || (bo.Op != token.EQL && bo.Op != token.NEQ) || strip(bo.X) != ssa.Value(recv) {
+						continue
+					}
+					c, okk := bo.Y.(*ssa.Const)
+					if !okk || c.Value == nil || c.Float64() != 0 {
+						continue
+					}
+					nz := fE
+					if bo.Op == token.NEQ {
+						nz = tE
+					}
+					if nz.From == pred && nz.To() == x.Block() || edgeDominates(nz, pred) {
+						okEdge = true
+					}
+				}
+				if !okEdge {
+					other = false
+				}
+			}
+			return zeroEdge && other
+		}
+		return false
+	}
+	n := 0
+	allInstrs(fn, func(in ssa.Instruction) {
+		c, ok := in.(*ssa.Call)
+		if !ok {
+			return
+		}
+		name := calleeFullName(c)
+		var arg ssa.Value
+		switch {
+		case strings.HasSuffix(name, "encoding/binary.Write") && len(c.Call.Args) == 3:
+			arg = c.Call.Args[2]
+		case strings.HasSuffix(name, "math.Float64bits") && len(c.Call.Args) == 1:
+			arg = c.Call.Args[0]
+		default:
+			return
+		}
+		// only a float taken from the receiver matters
+		inner := arg
+		for {
+			if mi, ok := inner.(*ssa.MakeInterface); ok {
+				inner = mi.X
+				continue
+			}
+			break
+		}
+		if !isFloat(inner.Type()) {
+			return
+		}
+		n++
+		r.Check(folded(arg, 0), rule, fmt.Sprintf("%s:bits-of-zero-folded#%d", fnName(fn), n), w.Pos(c.Pos()),
+			"the value whose bit pattern is hashed has -0 folded into 0",
+			"the number's bit pattern is hashed as it is: 0 and -0 are Equal but get different digests, so [0] and [-0] differ as set or multiset members and the list diff of [0] and [-0] is not empty although they are Equal")
+	})
+	if n == 0 {
+		r.Ok(rule, fnName(fn)+":bits-of-zero-folded", w.Pos(fn.Pos()), "the number digest is not taken from the float's bit pattern: this rule makes no claim (not decided)")
+	}
 }
